@@ -31,12 +31,12 @@ pub fn run(ctx: &Ctx) {
         p_correct: 0.6,
         forks_everywhere: true,
         n_forks: 0,
-        histories: ctx.scale(80, 320),
+        histories: ctx.scale(80, 200),
         positional: false,
     };
     ctx.extra("config", vcore::json!(format!("{cfg:?}")));
     run_histories(ctx, &cfg);
-    ctx.floor("histories_nontrivial", ctx.scale(40, 200));
+    ctx.floor("histories_nontrivial", ctx.scale(40, 120));
     ctx.floor("insert_rejected_NeighborsVerificationFailed", 200);
     ctx.floor("insert_intent_nvf_left", 50);
     ctx.floor("insert_intent_nvf_right", 50);
